@@ -2,7 +2,9 @@
 """Development self-test (not part of any verdict): apply scripted single edits to a scratch
 copy of /repo, check that (a) the named checks report a violation naming the mutated instance and
 (b) optionally that the edit compiles and the repo's own tests still pass.
-usage: run_mutants.py [--tests] [--only substr] [--jobs N]
+usage: run_mutants.py [--tests] [--only substr] [--idioms]
+--idioms: selftest/idiom_mutants.json — edits relative to a stored refactoring / feature tree (`base`), the positive side of
+the idioms /repo itself does not use (a refactoring must stay quiet, the same tree with one instance broken must not)
 Scratch copies live under /tmp and are removed immediately."""
 import json, os, shutil, subprocess, sys, tempfile, concurrent.futures as cf
 HERE = os.path.dirname(os.path.abspath(__file__))
@@ -14,6 +16,11 @@ def run_one(m, with_tests):
     try:
         dst = os.path.join(d, 'repo')
         shutil.copytree(REPO, dst, ignore=shutil.ignore_patterns('target', '.git'))
+        if m.get('base'):
+            # an edit relative to a stored behaviour-preserving refactoring / feature (an idiom /repo does not use today)
+            pp = subprocess.run(['patch', '-p1', '-s', '--no-backup-if-mismatch', '-i', os.path.join(VERIF, 'refactors', m['base'], 'patch.diff')], cwd=dst, stdout=subprocess.PIPE, stderr=subprocess.STDOUT, text=True)
+            if pp.returncode != 0:
+                return m['name'], 'EDIT-FAILED', 'base patch %s does not apply' % m['base'], {}
         for e in m['edits']:
             p = os.path.join(dst, e['file'])
             t = open(p).read()
@@ -55,7 +62,7 @@ def main():
     if '--only' in sys.argv:
         only = sys.argv[sys.argv.index('--only') + 1]
     verbose = '-v' in sys.argv
-    ms = json.load(open(os.path.join(HERE, 'mutants.json')))
+    ms = json.load(open(os.path.join(HERE, 'idiom_mutants.json' if '--idioms' in sys.argv else 'mutants.json')))
     if only:
         ms = [m for m in ms if only in m['name']]
     bad = 0
